@@ -1,4 +1,5 @@
 import PV.Proofs.CloneBatchLemmas
+import PV.Proofs.BatchNodup
 import PV.Properties.CloneFactsExpected
 import PV.Generated.CloneLoopFacts
 import PV.Generated.LSHFacts
@@ -94,6 +95,9 @@ theorem C09_batch_cover (n bs : Nat) (hbs : 0 < bs) :
     (∀ u v, u < n → v < n → u ≠ v → ((u, v) ∈ batchPairs n bs ∨ (v, u) ∈ batchPairs n bs)) ∧
     (∀ u v, (u, v) ∈ batchPairs n bs → (v, u) ∉ batchPairs n bs) :=
   ⟨fun _ _ h => batchPairs_ne hbs h, fun _ _ hu hv huv => batchPairs_cover hbs hu hv huv, fun _ _ h => batchPairs_not_both hbs h⟩
+
+/-- … and visits no (i, j) twice: together with `C09_batch_cover` every unordered pair is compared exactly once. -/
+theorem C09_batch_once (n bs : Nat) (hbs : 0 < bs) : (batchPairs n bs).Nodup := batchPairs_nodup n bs hbs
 
 /-- **Without truncation batched = unbatched**: if the pair limit is not exceeded, the batched detector (any batch size, including the
 defaults it substitutes for non-positive arguments) reports exactly the unordered pairs the exhaustive double loop reports, with the
